@@ -18,6 +18,7 @@ TAG_FUNC = "loop-indexed-duration-function-fails"
 TAG_ASSERT = "loop-delay-expression-free-symbol"
 TAG_VEC = "loop-delay-expression-vector-element"
 TAG_CACHEVEC = "cache-duration-vector-element"
+TAG_RPV = "replace-parameter-values-delay-argument"
 
 # ---------------------------------------------------------------------------------------------
 # Case (JSON):
@@ -147,10 +148,12 @@ def to_text(case):
         s = v["name"] + ("[%d,%d]" % tuple(v["mat"]) if v.get("mat") else "[%d]" % n if v["vec"] else "")
         if v["kind"] == "finput":
             s += "(each fixed=true)" if v["vec"] else "(fixed=true)"
-        if v.get("bind"):
+        if v.get("bind_expr"):
+            s += " = " + pr(v["bind_expr"])
+        elif v.get("bind"):
             s += " = " + v["bind"]
         elif v["kind"] in ("const", "param"):
-            s += " = {%s}" % ", ".join("%d.0" % (j + 1) for j in range(n)) if v["vec"] else " = 2.0"
+            s += " = {%s}" % ", ".join("%d.0" % (j + 1) for j in range(n)) if v["vec"] else " = %d.0" % v.get("value", 2)
         out.append("  %sReal %s;" % (pre, s))
     out.append("equation")
     for q in case["eqs"]:
@@ -295,6 +298,8 @@ def category(case, atom, ders):
     if t == "i":
         return "loop index"
     kd = kinds[atom[1]]
+    if atom[1] in (case.get("eca") or {}) and (case.get("options") or {}).get("eliminate_constant_assignments"):
+        return "constant"
     if kd == "plain":
         return "state" if atom[1] in ders else "algebraic"
     return {"const": "constant", "param": "parameter", "finput": "fixed input", "input": "non-fixed input"}[kd]
@@ -360,19 +365,23 @@ def alias_applies(case, rhs):
 
 
 def resolved(case):
-    """The case with every eliminated alias variable replaced by what it stands for (option stream)."""
+    """The case with every variable that simplify() eliminates replaced by what it stands for:
+    detect_aliases: `w = s` / `w = -s`; eliminable_variable_expression: `_e = expr` (option streams)."""
+    o = case.get("options") or {}
     al = {d: r for d, r in (case.get("aliases") or {}).items() if alias_applies(case, r)}
+    if o.get("eliminable_variable_expression"):
+        al.update(case.get("eliminable") or {})
     if not al:
         return case
 
-    def sub(e):
-        if e and e[0] == "v" and e[1] in al:
-            return json.loads(json.dumps(al[e[1]]))
-        return [sub(x) if isinstance(x, list) else x for x in e]
+    def sub(e, depth=0):
+        if e and e[0] == "v" and e[1] in al and depth < 12:
+            return sub(json.loads(json.dumps(al[e[1]])), depth + 1)
+        return [sub(x, depth) if isinstance(x, list) else x for x in e]
     eqs = []
     for q in case["eqs"]:
         if q[0] == "eq" and q[1][0] == "v" and q[1][1] in al:
-            continue                                   # the alias equation itself disappears
+            continue                                   # the defining equation itself disappears
         eqs.append(sub(q))
     c = dict(case)
     c["eqs"] = eqs
@@ -508,6 +517,11 @@ def judge1(case, res):
     if n == 0:
         return None
     if res["func"] is not None:
+        if (case.get("options") or {}).get("replace_parameter_values") and "free" in res["func"].get("msg", "") and \
+                any(a[0] == "v" and category(rcase, a, set()) == "parameter"
+                    for r in recs for x in (r["e"], r["d"]) for a in dep_atoms(x, dly)):
+            return (TAG_RPV, "accepted, but delay_arguments_function has a free parameter symbol: "
+                    "replace_parameter_values removes the parameter without substituting it in the delay arguments")
         return (TAG_FUNC if info["loop_dur"] else "function-fails",
                 "accepted but delay_arguments_function cannot be built/evaluated: %s" % res["func"].get("msg", "")[-160:])
     if len(res["shapes"]) != 2 * len(want):
@@ -597,7 +611,7 @@ def enc_point(pt, ids):
 
 def modelled(case):
     o = case.get("options") or {}
-    if o.get("detect_aliases") or any(q[0] == "aeq" for q in case["eqs"]):
+    if any(k not in ("cache", "expand_vectors") for k in o) or any(q[0] == "aeq" for q in case["eqs"]):
         return False
     # expand_vectors splits loop delays into scalar delay states: same values, other output layout
     return not (o.get("expand_vectors") and any(q[0] == "for" for q in case["eqs"]))
@@ -1015,6 +1029,116 @@ def cache_cases(rng, n_random):
     return out
 
 
+SIMP = {"RPE": {"replace_parameter_expressions": True}, "RCE": {"replace_constant_expressions": True},
+        "RPV": {"replace_parameter_values": True}, "RCV": {"replace_constant_values": True},
+        "EVE": {"eliminable_variable_expression": "_\\w+", "expand_mx": True}, "DA": {"detect_aliases": True},
+        "ECA": {"eliminate_constant_assignments": True}}
+SIMP_SETS = [("EVE", "DA"), ("RPE", "RCV"), ("RPE", "RCE"), ("RCE", "RCV"), ("ECA", "RCV"), ("DA", "ECA"), ("EVE", "ECA"),
+             ("RPE", "DA"), ("RCV", "DA"), ("RCV", "EVE"), ("RPE", "EVE"), ("RPV", "RCV"), ("RPE", "RPV"),
+             ("EVE", "DA", "ECA"), ("RPE", "RCE", "RCV"), ("EVE", "DA", "RCV"), ("EVE", "DA", "RPE"), ("RPE", "RCV", "DA"),
+             ("RCE", "RCV", "ECA"), ("EVE", "DA", "RPV"), ("RPE", "RCE", "EVE")]
+
+
+def gen_chain_case(rng, names=None, dur=None, target=None):
+    """Two / three cooperating simplification options on a model whose durations and delayed expressions go
+    through chains: parameter defined by an expression in a constant and parameters (q1 = c1*p1, q2 = q1 + p2),
+    constant expression k1, alias chain w2 = w1 = target, eliminable _e1 = 2*w1 (+ ...), _e2 = 3*_e1,
+    constant assignment z1 = literal.  Constants / parameters are evaluated at their declared values."""
+    names = names or rng.choice(SIMP_SETS)
+    options = {}
+    for nme in names:
+        options.update(SIMP[nme])
+    val = {"c1": rng.randint(2, 4), "p1": rng.randint(2, 5), "p2": rng.randint(1, 3)}
+    k1 = rng.choice([["mul", ["num", 2], ["v", "c1"]], ["add", ["v", "c1"], ["num", 1]]])
+    q1 = rng.choice([["mul", ["v", "c1"], ["v", "p1"]], ["add", ["v", "k1"], ["v", "p1"]], ["mul", ["num", 2], ["v", "p1"]]])
+    q2 = rng.choice([["add", ["v", "q1"], ["v", "p2"]], ["mul", ["v", "q1"], ["v", "c1"]]])
+    V = lambda n, k, **kw: dict({"name": n, "kind": k, "vec": False, "bind": None}, **kw)    # noqa: E731
+    vs = [V("c1", "const", value=val["c1"]), V("k1", "const", bind_expr=k1), V("p1", "param", value=val["p1"]),
+          V("p2", "param", value=val["p2"]), V("q1", "param", bind_expr=q1), V("q2", "param", bind_expr=q2),
+          V("uf", "finput"), V("u1", "input")] + [V(n, "plain") for n in ("x1", "a1", "w1", "w2", "_e1", "_e2", "z1")]
+    rng.shuffle(vs)
+    # an alias of a parameter / constant stops being one when its value or expression is substituted first
+    subst = any(n in names for n in ("RPE", "RCE", "RPV", "RCV"))
+    targets = [["v", "uf"], ["v", "u1"], ["v", "x1"], ["v", "a1"], ["neg", ["v", "uf"]]]
+    if not subst:
+        targets += [["v", "p1"], ["v", "c1"], ["v", "p2"], ["neg", ["v", "p1"]], ["v", "p1"]]
+    target = target or rng.choice(targets)
+    zlit = rng.randint(1, 6)
+    e1 = rng.choice([["mul", ["num", 2], ["v", "w1"]], ["add", ["v", "w2"], ["v", "uf"]], ["add", ["mul", ["num", 2], ["v", "w1"]], ["v", "p2"]]])
+    aliases = {"w1": target, "w2": ["v", "w1"]}
+    elim = {"_e1": e1, "_e2": ["mul", ["num", 3], ["v", "_e1"]]}
+    eqs = [["eq", ["der", "x1"], ["sub", ["v", "u1"], ["v", "x1"]]],
+           ["eq", ["v", "a1"], ["add", ["v", "x1"], ["v", "c1"]]]]
+    good = [["v", "q1"], ["v", "q2"], ["v", "k1"], ["v", "c1"], ["v", "p1"], ["v", "uf"], ["v", "z1"], ["num", 2]]
+    chain = [["v", "w1"], ["v", "w2"], ["v", "_e1"], ["v", "_e2"], ["v", "z1"], ["v", "q2"], ["v", "q1"]]
+    items = []
+    for k in range(1 if dur else rng.randint(1, 2)):
+        yn = "y%d" % (k + 1)
+        vs.append(V(yn, "plain"))
+        for _ in range(30):
+            d = json.loads(json.dumps(dur)) if dur else combine(rng, [json.loads(json.dumps(rng.choice(chain if rng.random() < 0.6 else good)))
+                                                                     for _ in range(rng.randint(1, 2))])
+            e = combine(rng, [json.loads(json.dumps(rng.choice([["v", "x1"], ["v", "a1"], ["v", "u1"], ["v", "w2"], ["v", "_e1"],
+                                                                  ["v", "q1"], ["v", "k1"], ["v", "x1"]])))
+                              for _ in range(rng.randint(1, 2))])
+            probe = {"eqs": [["eq", ["num", 0], ["delay", e, d]]], "aliases": aliases, "eliminable": elim,
+                     "options": {"detect_aliases": True, "eliminable_variable_expression": "x"}}
+            rq = resolved(probe)["eqs"][0][2]
+            if consistent(d) and consistent(e) and consistent(rq[1]) and consistent(rq[2]) and \
+                    dep_atoms(rq[1], collect_delays({"eqs": [["eq", ["num", 0], rq[1]]]})[1]):
+                break
+        items.append(["eq", ["v", yn], ["add", ["mul", ["num", 2], ["delay", e, d]], ["v", "a1"]]
+                      if rng.random() < 0.3 else ["delay", e, d]])
+    used = set()
+    for q in items:
+        used |= used_names({"eqs": [q]})
+    defs = []
+    if "_e2" in used:
+        used.add("_e1")
+    if "_e1" in used:
+        defs.append(["eq", ["v", "_e1"], e1])
+        used |= used_names({"eqs": [["eq", ["num", 0], e1]]})
+    if "_e2" in used:
+        defs.append(["eq", ["v", "_e2"], elim["_e2"]])
+    if "w2" in used:
+        defs.append(["eq", ["v", "w2"], ["v", "w1"]])
+        used.add("w1")
+    if "w1" in used:
+        defs.insert(0, ["eq", ["v", "w1"], target])
+    if "z1" in used:
+        defs.append(["eq", ["v", "z1"], ["num", zlit]])
+    rng.shuffle(defs)
+    case = {"N": N, "vars": vs, "eqs": eqs + defs + items, "kind": "chain:" + "+".join(names), "options": options,
+            "aliases": {k_: v_ for k_, v_ in aliases.items() if k_ in used},
+            "eliminable": {k_: v_ for k_, v_ in elim.items() if k_ in used}, "eca": {"z1": zlit}}
+    un = used_names(case)
+    for nm, ex in (("q2", q2), ("q1", q1), ("k1", k1)):              # keep what the kept bindings need
+        if nm in un:
+            un |= used_names({"eqs": [["eq", ["num", 0], ex]]})
+    case["vars"] = [v for v in vs if v["name"] in un]
+    case["points"] = gen_points(rng, case, 1)
+    # constants / parameters at their declared (resolved) values, z1 at its literal
+    for pt in case["points"]:
+        pt["vals"].update({n: [x] for n, x in val.items()})
+        env = {"vals": dict({n: [x] for n, x in val.items()}), "time": 0, "der": {}}
+        for nm, ex in (("k1", k1), ("q1", q1), ("q2", q2)):
+            env["vals"][nm] = [int(evaluate(ex, env, {}))]
+            pt["vals"][nm] = env["vals"][nm]
+        if "z1" in pt["vals"]:
+            pt["vals"]["z1"] = [zlit]
+    return case
+
+
+def chain_table(rng):
+    out = []
+    for names in SIMP_SETS:
+        for d, t in ((["v", "_e1"], None), (["v", "q2"], None), (["add", ["v", "w2"], ["v", "z1"]], None)):
+            out.append(gen_chain_case(rng, names, dur=d, target=t))
+    out.append(gen_chain_case(rng, ("EVE", "DA"), dur=["v", "_e1"], target=["v", "x1"]))      # the seeded shapes
+    out.append(gen_chain_case(rng, ("RPE", "RCV"), dur=["v", "q1"]))
+    return out
+
+
 def category_cases(rng):
     """Finite table: one delay whose duration draws on exactly one category, outside and inside a for-loop."""
     durs = [("constant", ["v", "c1"]), ("parameter", ["v", "p1"]), ("bound parameter", ["v", "q1"]),
@@ -1126,6 +1250,14 @@ def known_cases():
     out[TAG_CACHEVEC] = c
     for c in out.values():
         prune(rng, c, keep=0.0)
+    vs = [{"name": n, "kind": k, "vec": False, "bind": None} for n, k in (("p1", "param"), ("u1", "input"), ("x1", "plain"), ("y1", "plain"))]
+    c = {"N": N, "vars": vs, "kind": "known", "options": {"replace_parameter_values": True},
+         "eqs": [["eq", ["der", "x1"], ["sub", ["v", "u1"], ["v", "x1"]]],
+                 ["eq", ["v", "y1"], ["delay", ["v", "x1"], ["v", "p1"]]]]}
+    c["points"] = gen_points(rng, c, 1)
+    for pt in c["points"]:
+        pt["vals"]["p1"] = [2]
+    out[TAG_RPV] = c
     return out
 
 
@@ -1179,14 +1311,17 @@ def run(ctx):
 
     cases = corpus_cases(ctx.rng) + category_cases(ctx.rng)
     n_fixed = len(cases)
-    n_rand = ctx.scaled(160, 3000)
+    n_rand = ctx.scaled(140, 3000)
     for _ in range(n_rand):
         cases.append(gen_model(ctx.rng))
-    cases += cache_cases(ctx.rng, ctx.scaled(20, 300))
+    cases += cache_cases(ctx.rng, ctx.scaled(14, 300))
     for _ in range(ctx.scaled(40, 600)):
         cases.append(gen_array_case(ctx.rng))
+    cases += chain_table(ctx.rng)
+    for _ in range(ctx.scaled(20, 800)):
+        cases.append(gen_chain_case(ctx.rng))
     cases += option_table(ctx.rng)
-    n_opt = ctx.scaled(50, 1200)
+    n_opt = ctx.scaled(40, 1200)
     for _ in range(n_opt):
         cases.append(gen_option_case(ctx.rng))
     for _ in range(ctx.scaled(8, 60)):
